@@ -182,4 +182,83 @@ example (H : List Nat → Nat) {r0 : Ring Nat} (h0 : Ring.new 2 2 = some r0) :
     by_cases h1 : k = [1] <;> by_cases h2 : k = [2] <;> by_cases h3 : k = [3] <;>
       simp [h1, h2, h3] at hk <;> omega
 
+
+/-! ### Corollaries: the ways "order or history of insertions and removals" can differ
+
+Each is the history-independence theorem instantiated at one kind of difference
+between two nodes' views; stated separately so that each reading of the property
+is a named, audited theorem. -/
+
+/-- **Every node elects the same owner.** Two nodes create their rings separately (same
+configuration) and see arbitrary, different histories of the same final membership. -/
+theorem nodes_agree (H : List Nat → Nat) {R P : Int} {rA rB : Ring V}
+    (hA : Ring.new R P = some rA) (hB : Ring.new R P = some rB) (opsA opsB : List (Op V))
+    (hm : ∀ k, memberMap opsA k = memberMap opsB k) (q : Key) :
+    ((rA.run H opsA).lookup H q).2 = ((rB.run H opsB).lookup H q).2 := by
+  have : rA = rB := by rw [hA] at hB; exact Option.some.inj hB
+  subst this
+  exact lookup_history_independent H hA opsA opsB hm q
+
+theorem memberMap_append (a b : List (Op V)) :
+    memberMap (a ++ b) = b.foldl Op.apply (memberMap a) := by
+  simp [memberMap, List.foldl_append]
+
+/-- Insertion order does not matter. -/
+theorem insert_order_irrelevant (H : List Nat → Nat) {R P : Int} {r0 : Ring V}
+    (h0 : Ring.new R P = some r0) (ops : List (Op V)) (k1 k2 : Key) (v1 v2 : V) (hne : k1 ≠ k2) (q : Key) :
+    ((r0.run H (ops ++ [.insert k1 v1, .insert k2 v2])).lookup H q).2 =
+      ((r0.run H (ops ++ [.insert k2 v2, .insert k1 v1])).lookup H q).2 := by
+  apply lookup_history_independent H h0
+  intro k
+  simp only [memberMap_append, List.foldl_cons, List.foldl_nil, Op.apply]
+  by_cases h1 : k = k1 <;> by_cases h2 : k = k2 <;> simp_all
+
+/-- A member that joins and leaves again (swept or not, with any lookups in between that do
+not change membership) leaves no trace in later answers. -/
+theorem insert_remove_no_trace (H : List Nat → Nat) {R P : Int} {r0 : Ring V}
+    (h0 : Ring.new R P = some r0) (ops : List (Op V)) (k : Key) (v : V) (qs : List Key)
+    (hk : memberMap ops k = none) (q : Key) :
+    ((r0.run H (ops ++ [.insert k v] ++ qs.map .lookup ++ [.remove k])).lookup H q).2 =
+      ((r0.run H ops).lookup H q).2 := by
+  apply lookup_history_independent H h0
+  intro k'
+  have hl : ∀ (m : Key → Option V), (qs.map Op.lookup).foldl Op.apply m = m := by
+    intro m; induction qs with
+    | nil => rfl
+    | cons a l ih => simpa [Op.apply] using ih
+  simp only [memberMap_append, List.foldl_cons, List.foldl_nil, hl, Op.apply]
+  by_cases h1 : k' = k <;> simp_all
+
+/-- Lookups (which sweep and sort the internal table) never change later answers. -/
+theorem lookups_transparent (H : List Nat → Nat) {R P : Int} {r0 : Ring V}
+    (h0 : Ring.new R P = some r0) (ops1 ops2 : List (Op V)) (qs : List Key) (q : Key) :
+    ((r0.run H (ops1 ++ qs.map .lookup ++ ops2)).lookup H q).2 =
+      ((r0.run H (ops1 ++ ops2)).lookup H q).2 := by
+  apply lookup_history_independent H h0
+  intro k'
+  have hl : ∀ (m : Key → Option V), (qs.map Op.lookup).foldl Op.apply m = m := by
+    intro m; induction qs with
+    | nil => rfl
+    | cons a l ih => simpa [Op.apply] using ih
+  simp only [memberMap_append, hl]
+
+/-- Re-inserting a member with the value it already has changes nothing. -/
+theorem reinsert_idempotent (H : List Nat → Nat) {R P : Int} {r0 : Ring V}
+    (h0 : Ring.new R P = some r0) (ops : List (Op V)) (k : Key) (v : V)
+    (hk : memberMap ops k = some v) (q : Key) :
+    ((r0.run H (ops ++ [.insert k v])).lookup H q).2 = ((r0.run H ops).lookup H q).2 := by
+  apply lookup_history_independent H h0
+  intro k'
+  simp only [memberMap_append, List.foldl_cons, List.foldl_nil, Op.apply]
+  by_cases h1 : k' = k <;> simp_all
+
+/-- Removing a non-member changes nothing. -/
+theorem remove_absent_noop (H : List Nat → Nat) {R P : Int} {r0 : Ring V}
+    (h0 : Ring.new R P = some r0) (ops : List (Op V)) (k : Key)
+    (hk : memberMap ops k = none) (q : Key) :
+    ((r0.run H (ops ++ [.remove k])).lookup H q).2 = ((r0.run H ops).lookup H q).2 := by
+  apply lookup_history_independent H h0
+  intro k'
+  simp only [memberMap_append, List.foldl_cons, List.foldl_nil, Op.apply]
+  by_cases h1 : k' = k <;> simp_all
 end CalicoVerif.C45
